@@ -316,6 +316,92 @@ class Body:
                 out.append((src, tgt, label))
         return out
 
+    # ------------------------------------------------ correlated branches
+    def _switch_local(self, blk):
+        """the single-definition local a switch tests (through plain copies), or None"""
+        t = self.blocks[blk]["term"]
+        if t["k"] != "switch":
+            return None
+        l = op_local(t["d"])
+        if l is None or (op_place(t["d"]) or {}).get("p"):
+            return None
+        for _ in range(6):
+            sd = self.single_def(l)
+            if sd is None:
+                return None
+            if sd[0] == "st":
+                rv = self.blocks[sd[1]]["st"][sd[2]]["rv"]
+                if rv["k"] == "use" and op_local(rv["o"][0]) is not None and not op_place(rv["o"][0])["p"]:
+                    l = op_local(rv["o"][0])
+                    continue
+            return (l, sd)
+        return None
+
+    def correlated_exclusions(self, blk):
+        """edges (src, tgt) that cannot be taken on any path reaching blk, because blk is dominated by an edge of another
+        switch that tests the same immutable local with a different outcome. The local must be defined once, outside any
+        loop, so that both switches observe the same value."""
+        succ, _, _ = self.cfg()
+        out = set()
+        sw = {}
+        for i in range(len(self.blocks)):
+            sl = self._switch_local(i)
+            if sl is not None:
+                sw.setdefault(sl[0], []).append((i, sl[1]))
+        for (src, tgt, label) in self.dominating_edges(blk):
+            sl = self._switch_local(src)
+            if sl is None:
+                continue
+            l, sd = sl
+            defblk = sd[1]
+            if defblk in self._reach_from(succ, succ[defblk]):
+                continue     # defined inside a loop
+            for (other, _) in sw.get(l, []):
+                if other == src:
+                    continue
+                for (v, t2) in self.switch_edges(other):
+                    same = (v == label) or (isinstance(label, tuple) and v in label)
+                    if not same and t2 != self._edge_target(other, label):
+                        out.add((other, t2))
+        return out
+
+    def _edge_target(self, blk, label):
+        for (v, t2) in self.switch_edges(blk):
+            if v == label:
+                return t2
+        return None
+
+    @staticmethod
+    def _reach_from(succ, starts):
+        seen = set()
+        st = list(starts)
+        while st:
+            x = st.pop()
+            if x in seen:
+                continue
+            seen.add(x)
+            st.extend(succ[x])
+        return seen
+
+    def dominates_assuming(self, a, blk):
+        """does block a dominate blk on all *feasible* paths (branches correlated with blk's dominating edges removed)?"""
+        if self.dominates(a, blk):
+            return True
+        succ, _, _ = self.cfg()
+        excl = self.correlated_exclusions(blk)
+        seen = set()
+        st = [0]
+        while st:
+            x = st.pop()
+            if x in seen or x == a:
+                continue
+            seen.add(x)
+            for s2 in succ[x]:
+                if (x, s2) in excl:
+                    continue
+                st.append(s2)
+        return blk not in seen
+
     # ------------------------------------------------------------- def-use
     def defs(self):
         """local -> list of definition sites: ('st', blk, idx) | ('call', blk) | ('arg',)"""
